@@ -44,7 +44,7 @@ def canon(obj):
     if isinstance(obj, (list, tuple)):
         return [canon(v) for v in obj]
     if isinstance(obj, float):
-        return repr(obj)
+        return obj if obj == obj and obj not in (float("inf"), float("-inf")) else repr(obj)
     if isinstance(obj, (str, int, bool)) or obj is None:
         return obj
     return repr(obj)
